@@ -30,7 +30,7 @@ ASSUMPTIONS = [
     "under the legacy C locale the stdin path is compared only for ASCII documents; the API string paths are compared for all documents",
     "with diagnostics options, log lines on stdout/stderr are ignored; failure lines, exit status and fixed bytes must be identical",
 ]
-PROBES = ["cmp:diagnostics-under-fault", "cmp:file-vs-stdin", "cmp:file-vs-scan_string", "cmp:file-vs-scan_path", "cmp:inplace-vs-fix_string", "cmp:diagnostics", "locale_C", "non_ascii_doc", "crlf_doc", "stdin_split_multibyte", "stdin_chunk_1"]
+PROBES = ["cmp:blank-via-api", "cmp:diagnostics-under-fault", "cmp:file-vs-stdin", "cmp:file-vs-scan_string", "cmp:file-vs-scan_path", "cmp:inplace-vs-fix_string", "cmp:diagnostics", "locale_C", "non_ascii_doc", "crlf_doc", "stdin_split_multibyte", "stdin_chunk_1"]
 
 EDGE = ["edge_crlf", "edge_crlf_noeol", "edge_lone_cr", "edge_mixed_eol", "edge_bom", "edge_utf8_2", "edge_utf8_3", "edge_utf8_4", "edge_utf8_noeol", "edge_nbsp", "edge_formfeed", "edge_seps_tail", "edge_u2028", "edge_fs_gs_rs", "edge_one_line", "edge_one_line_noeol", "ws_no_eol", "ws_trailing_eof", "ws_only_newlines", "ws_tabs", "ws_blank_end", "code_dollar", "code_dollar", "in_bare_url", "lrd_quote_unfinished", "lrd_list_unfinished", "lrd_quote_nested", "lrd_partial_eof", "lrd_partial_eof2", "bq_list", "edge_long_line", "edge_big_utf8_3", "edge_big_utf8_2", "edge_big_utf8_4", "ul_mixed", "ws_long", "vp_and_builtin", "pr_good", "pr_bad", "fm_valid"]
 
@@ -284,6 +284,17 @@ def evaluate(sc):
                 differ("file-vs-scan_string", [api.get("type"), api.get("reason", reply["result"]["ops"][0].get("exc"))], ["scan result"], {"text_head": text[:80]})
             if reply.get("tmp"):
                 out.append(violation("C16/spool-left", "C16/spool-left|scan_string", {"tmp": sorted(reply["tmp"])}))
+    if text is not None and not text.strip():
+        # a blank document: the API documents that it refuses it; whatever it does, it must
+        # not answer with somebody else's text (the host's standard input is not empty here)
+        op = {"kind": "api", "new": True, "build": api_build, "call": ["scan_string", [text], {}], "stdin_b64": b64(b"#  Not the document\n\n\n\ntrailing   \n")}
+        reply = run(_req(sc, op, with_file=False), cls)
+        if done(reply):
+            api = reply["result"]["ops"][0].get("api") or {}
+            stats["cmp:blank-via-api"] += 1
+            refused = api.get("type") == "exception" and api.get("class") == "PyMarkdownApiArgumentException"
+            if not refused and (api.get("type") != "scan" or _tuples_from_api(api) != ref_tuples):
+                differ("file-vs-scan_string:blank", [api.get("type"), str(api)[:200]], ref_tuples)
     # --- API scan_path -----------------------------------------------------------
     op = {"kind": "api", "new": True, "build": api_build, "call": ["scan_path", [name], {}]}
     reply = run(_req(sc, op), cls)
